@@ -49,8 +49,9 @@ const (
 )
 
 type propCfg struct {
-	id     string
-	engine engineKind
+	id      string
+	engine  engineKind   // first engine (kept for the components section of the evidence)
+	engines []engineKind // all engines the check runs
 	quickS int // exploration seconds (wall) for the quick tier
 	thorS  int // per base seed for the thorough tier
 	rule   string
@@ -71,10 +72,10 @@ func reg(p *propCfg) { props[p.id] = p }
 func init() {
 	schedRule := "plan (workload, faults) generated from hash(VERIF_SEED, property, run index); schedule chosen by a seeded scheduler at every statement boundary / sync operation; a run is non-trivial when >=2 tasks were live simultaneously and >=1 non-forced context switch, wake choice or early timer occurred; distinct = distinct hash of the sequence of (task, sync primitive, object, outcome) events among non-trivial runs"
 	for _, id := range []string{"C01", "C02", "C09", "C10", "C11", "C12", "C13", "C15", "C16"} {
-		reg(&propCfg{id: id, engine: engSched, quickS: 25, thorS: 240, rule: schedRule, assume: commonAssume})
+		reg(&propCfg{id: id, engine: engSched, engines: []engineKind{engSched}, quickS: 25, thorS: 240, rule: schedRule, assume: commonAssume})
 	}
-	reg(&propCfg{id: "C07", engine: engBubble, quickS: 25, thorS: 240,
-		rule: "inputs generated from hash(VERIF_SEED, run index): valid programs, token-level mutations, raw bytes; each parsed inside one testing/synctest bubble; non-trivial = input with >= 4 tokens whose parse reached the parser loop; distinct = distinct input text",
+	reg(&propCfg{id: "C07", engine: engBubble, engines: []engineKind{engSched, engBubble}, quickS: 30, thorS: 240,
+		rule: "inputs generated from hash(VERIF_SEED, run index): valid programs, token- and byte-level mutations, raw fragments. Bubble engine: each input parsed inside one testing/synctest bubble on uninstrumented code; non-trivial = input with >= 4 tokens, distinct = distinct input text. Scheduler engine (second half of the budget): 2-6 such inputs per run parsed with the lexer goroutine as a managed task (a panic inside it is caught and attributed); non-trivial/distinct as for the scheduler checks (trace hash)",
 		assume: []string{"testing/synctest (go1.26.8) reports a bubble whose root returned while another goroutine of the bubble is durably blocked", "tree-shape table written from the language reference (ecal.md)", "exploration is sampling"}})
 }
 
@@ -106,8 +107,8 @@ func trouble(format string, args ...interface{}) {
 
 // build prepares a scratch directory with an (instrumented) copy of /repo's
 // working tree and the harness binary built against it.
-func build(p *propCfg) (scratch string) {
-	scratch = filepath.Join(tmpBase, fmt.Sprintf("%s-%d", p.id, os.Getpid()))
+func build(p *propCfg, eng engineKind) (scratch string) {
+	scratch = filepath.Join(tmpBase, fmt.Sprintf("%s-%d-%d", p.id, os.Getpid(), eng))
 	os.RemoveAll(scratch)
 	if err := os.MkdirAll(scratch, 0755); err != nil {
 		trouble("mkdir: %v", err)
@@ -121,7 +122,7 @@ func build(p *propCfg) (scratch string) {
 	}
 	bin := filepath.Join(verifDir, "bin")
 	os.MkdirAll(bin, 0755)
-	if p.engine == engSched {
+	if eng == engSched {
 		if out, err := run(verifDir, nil, "go", "build", "-o", filepath.Join(bin, "instrument"), "./cmd/instrument"); err != nil {
 			trouble("building the instrumenter failed: %v\n%s", err, out)
 		}
@@ -150,7 +151,7 @@ func build(p *propCfg) (scratch string) {
 	os.WriteFile(scratch+"/go.mod", []byte(mod), 0644)
 	sum, _ := os.ReadFile(filepath.Join(verifDir, "harness", "go.sum"))
 	os.WriteFile(scratch+"/go.sum", sum, 0644)
-	if p.engine == engSched {
+	if eng == engSched {
 		if out, err := run(filepath.Join(verifDir, "harness"), nil, "go", "build", "-trimpath", "-modfile="+scratch+"/go.mod", "-o", scratch+"/harness", "."); err != nil {
 			trouble("building the harness against the instrumented working tree failed: %v\n%s", err, out)
 		}
@@ -171,7 +172,10 @@ type violation struct {
 	RunIndex int64           `json:"run_index"`
 	Plan     json.RawMessage `json:"plan"`
 	Tape     []int           `json:"tape"`
+	Engine   string          `json:"engine,omitempty"`
 	path     string
+	eng      engineKind
+	scratch  string
 }
 
 type stats struct {
@@ -267,14 +271,47 @@ func baseSeed() uint64 {
 	return 1
 }
 
+// harnessRun invokes the harness binary of one engine.
+func harnessRun(scratch string, eng engineKind, extraEnv []string, args []string) ([]byte, error) {
+	if eng == engBubble {
+		return run(scratch, append([]string{"BUBBLE_ARGS=" + strings.Join(args, " ")}, extraEnv...), scratch+"/harness", "-test.run", "TestBubble", "-test.timeout", "0")
+	}
+	return run(scratch, extraEnv, scratch+"/harness", args...)
+}
+
+func engName(e engineKind) string {
+	if e == engBubble {
+		return "bubble"
+	}
+	return "sched"
+}
+
+func engOf(name string, p *propCfg) engineKind {
+	switch name {
+	case "bubble":
+		return engBubble
+	case "sched":
+		return engSched
+	}
+	return p.engines[0]
+}
+
 func check(id, tier string) int {
 	p := props[id]
 	if p == nil {
 		trouble("unknown property %s", id)
 	}
 	start := time.Now()
-	scratch := build(p)
-	defer os.RemoveAll(scratch)
+	scratches := map[engineKind]string{}
+	for _, e := range p.engines {
+		sc := build(p, e)
+		scratches[e] = sc
+		defer os.RemoveAll(sc)
+	}
+	scratch := scratches[engSched]
+	if scratch == "" {
+		scratch = scratches[p.engines[0]]
+	}
 	buildS := time.Since(start).Seconds()
 
 	workers := runtime.NumCPU()
@@ -300,7 +337,27 @@ func check(id, tier string) int {
 	hashes := map[string]struct{}{}
 	var viols []violation
 	exploreStart := time.Now()
-	for round, sd := range seeds {
+	type phase struct {
+		seed uint64
+		eng  engineKind
+	}
+	var phases []phase
+	for _, sd := range seeds {
+		for _, e := range p.engines {
+			phases = append(phases, phase{sd, e})
+		}
+	}
+	secs = secs / len(p.engines)
+	if secs < 3 {
+		secs = 3
+	}
+	skipBubble := false
+	for round, ph := range phases {
+		sd, eng, scratch := ph.seed, ph.eng, scratches[ph.eng]
+		if eng == engBubble && skipBubble {
+			fmt.Println("note: bubble phase skipped - the scheduler engine found a panic inside a parse; on uninstrumented code a panic in the lexer goroutine would take the worker process down")
+			continue
+		}
 		rdir := filepath.Join(outDir, fmt.Sprintf("r%d", round))
 		var wg sync.WaitGroup
 		var mu sync.Mutex
@@ -311,13 +368,7 @@ func check(id, tier string) int {
 				defer wg.Done()
 				args := []string{"-mode", "explore", "-prop", id, "-seed", fmt.Sprint(sd), "-from", fmt.Sprint(w), "-stride", fmt.Sprint(workers),
 					"-budget", fmt.Sprintf("%ds", secs), "-tier", tier, "-out", rdir, "-sites", scratch + "/sites.json"}
-				var out []byte
-				var err error
-				if p.engine == engBubble {
-					out, err = run(scratch, []string{"BUBBLE_ARGS=" + strings.Join(args, " ")}, scratch+"/harness", "-test.run", "TestBubble", "-test.timeout", "0")
-				} else {
-					out, err = run(scratch, nil, scratch+"/harness", args...)
-				}
+				out, err := harnessRun(scratch, eng, nil, args)
 				if err != nil {
 					code := -1
 					if ee, ok := err.(*exec.ExitError); ok {
@@ -390,7 +441,11 @@ func check(id, tier string) int {
 				trouble("bad violation file %s: %v", f, err)
 			}
 			v.path = f
+			v.eng, v.scratch, v.Engine = eng, scratch, engName(eng)
 			viols = append(viols, v)
+			if eng == engSched && v.Class == "task-panic" {
+				skipBubble = true
+			}
 		}
 	}
 	exploreS := time.Since(exploreStart).Seconds()
@@ -422,19 +477,23 @@ func check(id, tier string) int {
 		h := sha1.Sum([]byte(key))
 		rp := filepath.Join(verifDir, "replays", fmt.Sprintf("%s-%x.json", id, h[:5]))
 		os.MkdirAll(filepath.Dir(rp), 0755)
-		margs := []string{"-mode", "minimise", "-in", v.path, "-out", rp, "-budget", fmt.Sprintf("%ds", minBudget), "-sites", scratch + "/sites.json"}
-		var out []byte
-		var err error
-		if p.engine == engBubble {
-			out, err = run(scratch, []string{"BUBBLE_ARGS=" + strings.Join(margs, " ")}, scratch+"/harness", "-test.run", "TestBubble", "-test.timeout", "0")
-		} else {
-			out, err = run(scratch, nil, scratch+"/harness", margs...)
-		}
+		margs := []string{"-mode", "minimise", "-in", v.path, "-out", rp, "-budget", fmt.Sprintf("%ds", minBudget), "-sites", v.scratch + "/sites.json"}
+		out, err := harnessRun(v.scratch, v.eng, nil, margs)
 		if err != nil {
 			trouble("minimising %s failed: %v\n%s", v.path, err, tail(out, 4000))
 		}
+		// remember which engine produced the file (the replay command needs it)
+		if rb, rerr := os.ReadFile(rp); rerr == nil {
+			var m map[string]interface{}
+			if json.Unmarshal(rb, &m) == nil {
+				m["engine"] = engName(v.eng)
+				if nb, merr := json.MarshalIndent(m, "", " "); merr == nil {
+					os.WriteFile(rp, nb, 0644)
+				}
+			}
+		}
 		// the minimised file must reproduce in a fresh process
-		code := replayIn(scratch, p, rp, false, nil)
+		code := replayIn(v.scratch, v.eng, rp, false, nil)
 		if code != 1 {
 			trouble("replay of %s in a fresh process did not reproduce the violation (exit %d): nondeterminism", rp, code)
 		}
@@ -552,18 +611,12 @@ func tail(b []byte, n int) string {
 	return string(b)
 }
 
-func replayIn(scratch string, p *propCfg, file string, trace bool, w *os.File) int {
+func replayIn(scratch string, eng engineKind, file string, trace bool, w *os.File) int {
 	args := []string{"-mode", "replay", "-in", file, "-sites", scratch + "/sites.json"}
 	if trace {
 		args = append(args, "-trace")
 	}
-	var out []byte
-	var err error
-	if p.engine == engBubble {
-		out, err = run(scratch, []string{"BUBBLE_ARGS=" + strings.Join(args, " ")}, scratch+"/harness", "-test.run", "TestBubble", "-test.timeout", "0")
-	} else {
-		out, err = run(scratch, nil, scratch+"/harness", args...)
-	}
+	out, err := harnessRun(scratch, eng, nil, args)
 	if w != nil {
 		w.Write(out)
 	}
@@ -589,10 +642,11 @@ func replayCmd(file string) int {
 	if p == nil {
 		trouble("unknown property %q in %s", v.Property, file)
 	}
-	scratch := build(p)
+	eng := engOf(v.Engine, p)
+	scratch := build(p, eng)
 	defer os.RemoveAll(scratch)
 	abs, _ := filepath.Abs(file)
-	code := replayIn(scratch, p, abs, true, os.Stdout)
+	code := replayIn(scratch, eng, abs, true, os.Stdout)
 	if code == 1 {
 		fmt.Printf("VIOLATION property=%s replay=%s\n", v.Property, abs)
 		return 1
@@ -610,7 +664,17 @@ func selftest(id string) int {
 	if p == nil {
 		trouble("unknown property %s", id)
 	}
-	scratch := build(p)
+	rc := 0
+	for _, eng := range p.engines {
+		if c := selftestEngine(id, p, eng); c != 0 {
+			rc = c
+		}
+	}
+	return rc
+}
+
+func selftestEngine(id string, p *propCfg, eng engineKind) int {
+	scratch := build(p, eng)
 	defer os.RemoveAll(scratch)
 	runs := "40"
 	if r := os.Getenv("VERIF_SELFTEST_RUNS"); r != "" {
@@ -620,13 +684,7 @@ func selftest(id string) int {
 	procList := []string{"1", "4", "16", "1", "16", "4", "2", "16", "1", "8", "16", "4"}
 	for k, procs := range procList {
 		args := []string{"-mode", "selftest", "-prop", id, "-seed", fmt.Sprint(baseSeed()), "-from", "0", "-runs", runs, "-sites", scratch + "/sites.json"}
-		var out []byte
-		var err error
-		if p.engine == engBubble {
-			out, err = run(scratch, []string{"GOMAXPROCS=" + procs, "BUBBLE_ARGS=" + strings.Join(args, " ")}, scratch+"/harness", "-test.run", "TestBubble", "-test.timeout", "0")
-		} else {
-			out, err = run(scratch, []string{"GOMAXPROCS=" + procs}, scratch+"/harness", args...)
-		}
+		out, err := harnessRun(scratch, eng, []string{"GOMAXPROCS=" + procs}, args)
 		if err != nil {
 			trouble("selftest process failed: %v\n%s", err, tail(out, 4000))
 		}
@@ -650,6 +708,6 @@ func selftest(id string) int {
 			return 2
 		}
 	}
-	fmt.Printf("selftest %s: %s runs identical across %d processes (GOMAXPROCS %s)\n%s", id, runs, len(procList), strings.Join(procList, ","), tail(ref, 300))
+	fmt.Printf("selftest %s (%s engine): %s runs identical across %d processes (GOMAXPROCS %s)\n%s", id, engName(eng), runs, len(procList), strings.Join(procList, ","), tail(ref, 300))
 	return 0
 }
